@@ -236,9 +236,16 @@ def forms(kind, xs, S):
         # which of several ==-equal extrema is returned: every spelling agrees with the fold of the binary operator (the first one)
         add("max", "[max(%s), %s fold max, (for (x_ <- %s) yield x_ into max)]" % (S, S, S), ("all-identical",))
         add("min", "[min(%s), %s fold min, (for (x_ <- %s) yield x_ into min)]" % (S, S, S), ("all-identical",))
+        # every builtin with a streaming (catamorphism) implementation used by `yield .. into F`: the second implementation of the
+        # same function agrees with the call, value or error alike
+        for F in ("count", "set", "count_distinct", "sum", "product", "any", "all", "max", "min"):
+            add(F, '[try %s(%s) catch _ -> "ERR", try (for (x_ <- %s) yield x_ into %s) catch _ -> "ERR"]' % (F, S, S, F), ("all-identical",))
         if n >= 2:
             add("max", "[max(...%s), %s fold max]" % (S, S), ("all-identical",))
             add("min", "[min(...%s), %s fold min]" % (S, S), ("all-identical",))
+    if not n and not unordered:
+        for F in ("count", "set", "count_distinct", "sum", "product", "any", "all", "max", "min"):
+            add(F, '[try %s(%s) catch _ -> "ERR", try (for (x_ <- %s) yield x_ into %s) catch _ -> "ERR"]' % (F, S, S, F), ("all-identical",))
     add("sort", "sort(%s)" % S, None if (unordered and False) else (E(Seq(K, stable_sorted(xs))) if not unordered else ("sorted-multiset", [conv(x) for x in stable_sorted(xs)])))
     if not unordered:
         for ks, kf in keys(kind):
